@@ -7,6 +7,8 @@ open Charset
 #print axioms Nested.C12_nested_no_deadlock
 #print axioms Nested.C12_nested_step_decreases
 #print axioms Nested.C12_nested_finished_has_result
+#print axioms C12_cached_calls_covered
+#print axioms C12_cached_calls_acyclic
 #print axioms good_init
 #print axioms good_step
 #print axioms C12_safety
